@@ -109,7 +109,19 @@ func (e *Engine) initAllowed(p *ssa.Package) bool {
 	return strings.HasPrefix(path, modPath) || initAllowedExtra[path]
 }
 
-func (e *Engine) nativeGlobal(g *ssa.Global) (Value, bool) { return nil, false }
+// well-known error values of standard-library packages whose initialisers are not run
+var ioEOF = &errVal{msg: "EOF"}
+var ioErrUnexpectedEOF = &errVal{msg: "unexpected EOF"}
+
+func (e *Engine) nativeGlobal(g *ssa.Global) (Value, bool) {
+	switch g.String() {
+	case "io.EOF":
+		return Iface{T: nativeErrorType, V: ioEOF}, true
+	case "io.ErrUnexpectedEOF":
+		return Iface{T: nativeErrorType, V: ioErrUnexpectedEOF}, true
+	}
+	return nil, false
+}
 
 func (e *Engine) interpretable(fn *ssa.Function) bool { return true }
 
